@@ -237,6 +237,50 @@ func (e *didEnv) monC11() {
 	}))
 }
 
+// monC03UTF8 evaluates one clause of C03 on the implementation, on a scratch branch: an update whose document
+// differs from the signed one only in a byte that is not valid UTF-8 must be rejected ("signatures over
+// different content"). The ownership proof is made over the document's JSON, which renders every such byte as
+// U+FFFD (known finding F18).
+func (e *didEnv) monC03UTF8() {
+	e.s.Emit("mon.c03.utf8", guard(func() string {
+		ctx, _ := e.c.DeliverCtx().CacheContext()
+		g := sdk.WrapSDKContext(ctx)
+		k := newDidKey("utf8-owner")
+		did := didtypes.NewDID(k.pub)
+		vmID := did + "#key1"
+		from := sdk.AccAddress([]byte("relayer-1-address-xx")).String()
+		mk := func(endpoint string) *didtypes.DIDDocument {
+			vm := &didtypes.VerificationMethod{Id: vmID, Type: didtypes.ES256K_2019, Controller: did, PublicKeyBase58: k.b58}
+			d := didtypes.NewDIDDocument(did, didtypes.WithVerificationMethods([]*didtypes.VerificationMethod{vm}),
+				didtypes.WithAuthentications([]didtypes.VerificationRelationship{rel(vmID)}))
+			d.Services = []*didtypes.Service{{Id: "s1", Type: "T", ServiceEndpoint: endpoint}}
+			return &d
+		}
+		d0 := mk("https://a")
+		sig0, _ := didtypes.Sign(d0, 0, k.priv)
+		cm := roundTripCreate(&didtypes.MsgCreateDIDRequest{Did: did, Document: d0, VerificationMethodId: vmID, Signature: sig0, FromAddress: from})
+		if err := cm.ValidateBasic(); err != nil {
+			return "fail #setup-validate " + err.Error()
+		}
+		if _, err := e.ms.CreateDID(g, cm); err != nil {
+			return "fail #setup-create " + err.Error()
+		}
+		signed, sent := mk("https://b/\xff"), mk("https://b/\xfe")
+		sig, _ := didtypes.Sign(signed, 0, k.priv)
+		um := roundTripUpdate(&didtypes.MsgUpdateDIDRequest{Did: did, Document: sent, VerificationMethodId: vmID, Signature: sig, FromAddress: from})
+		if um.Document.Services[0].ServiceEndpoint == signed.Services[0].ServiceEndpoint {
+			return "fail #setup-documents-equal"
+		}
+		if err := um.ValidateBasic(); err != nil {
+			return "pass #rejected-by-validation"
+		}
+		if _, err := e.ms.UpdateDID(g, um); err == nil {
+			return "fail #accepted-a-proof-made-over-different-content"
+		}
+		return "pass"
+	}))
+}
+
 func (e *didEnv) dump() {
 	e.s.Emit("did.dump", guard(func() string {
 		k := e.c.App.DidKeeper
@@ -634,6 +678,7 @@ func init() {
 		defer s.Close(dir, "did")
 		e := newDidEnv(s)
 		ids, rel := mkIdents()
+		e.monC03UTF8()
 		for h := 0; h < n; h++ {
 			didHistory(e, rng, ids, rel, 15+rng.Intn(30))
 		}
